@@ -21,6 +21,10 @@ def digest(obj: Any) -> str:
 
 def norm_msg(msg: str, scratch: str = "") -> str:
     msg = _ADDR_RE.sub("0xADDR", msg)
+    if msg.startswith("maximum recursion depth exceeded"):
+        # "... in comparison" / "... while calling a Python object": which call met the limit is
+        # not part of the outcome
+        msg = "maximum recursion depth exceeded"
     if scratch:
         msg = msg.replace(scratch, "<SCRATCH>")
     return msg[:400]
